@@ -35,7 +35,7 @@ OPERANDS = {
     'd0': "D('0')", 'd1': "D('1')", 'd.1': "D('0.1')", 'd28x9': "D('9'*28)", 'd29': "D('1'+'0'*27+'5')", 'd41': "D('123456789'*4+'12345')",
     'd1E400': "D('1E+400')", 'd9E999999': "D('9E+999999')", 'd1E-999999': "D('1E-999999')", 'd1E5000': "D('1E+5000')", 'd-7': "D('-7')",
     'd2': "D('2')", 'd.5': "D('0.5')", 'd1000': "D('1000')", 'd12345': "D('12345')", 'd1E30': "D('1E+30')", 'd3.000': "D('3.000')",
-    's12': "'12'", 's5000d': "'1'*5000", 'sab': "'ab'", 'l12': "[D('1'), D('2')]", 'lL': "[7]*50",
+    's12': "'12'", 's5000d': "'1'*5000", 's1E5000': "'1E+5000'", 's1e99999': "' 1e99999 '", 's12.50': "'12.50'", 's-1E40': "'-1.5E+40'", 'sab': "'ab'", 'l12': "[D('1'), D('2')]", 'lL': "[7]*50",
 }
 HUGE = {'d9E999999', 'd1E-999999', 'd1E5000'}          # run in their own killable process
 REDUCED = ['i2', 'i7', 'i10^28-1', 'i2^200', 'bT', 'f.5', 'd.1', 'd28x9', 'd41', 'd2', 'sab', 'l12', 'i12345', 'd12345', 'i10^18']
